@@ -2,7 +2,7 @@
 """Regenerate MANIFEST.json from the per-property descriptions below and the harness modules present.
 
 The texts are kept in step with docs/THEOREMS.md (generated inventory of the audited theorems) and with the
-two independent audits (docs/AUDIT-1.md, docs/AUDIT-2.md): each says what is PROVED (kernel-checked theorem
+four independent audits (docs/AUDIT-1.md … AUDIT-4.md): each says what is PROVED (kernel-checked theorem
 about the model), under which remaining hypotheses, and what rests on the correspondence run only ("T2 only").
 """
 import json
@@ -15,9 +15,9 @@ TB = ("Trusted beyond the Lean kernel (axioms propext/Classical.choice/Quot.soun
       "Python code — established only by the differential run of the compiled model (Lean compiler) against the real "
       "code on generated inputs, by the regenerated tables (T1) and by reading; CPython semantics as modelled; the "
       "Python harness. The cross-property theorems of Props/Coherence.lean and Props/Concrete.lean (digest / checksum "
-      "lengths of the concrete hashes, shared-definition coherence) are built by setup_cmd on every run but their "
-      "axioms are audited, and leanchecker is run, in the thorough tier only (quick evidence lists them under "
-      "system_theorems, not obligations). Inputs outside a property's quantifier are exercised as observations "
+      "lengths of the concrete hashes, shared-definition coherence) are built by setup_cmd; they are rebuilt and "
+      "their axioms audited in the thorough tier only (quick evidence lists them under system_theorems, not "
+      "obligations); leanchecker (thorough tier) re-checks the property's own modules. Inputs outside a property's quantifier are exercised as observations "
       "(evidence: out_of_domain_divergences), never as verdicts; auxiliary observables the harness cannot reach in "
       "a tree are reported as unobservable_cases. ")
 
@@ -142,7 +142,7 @@ P = {
   note=TB + "bn2vch/encode_op_pushdata fail at 2^32-byte encodings; theorems state that boundary.",
   tech="Lean 4 proof (structural induction over scripts) + model/implementation correspondence (exhaustive short scripts)"),
  'C09': dict(
-  text="PROVED over all operation histories on a heap model with Python reference semantics (objects, shared "
+  text="PARTIAL (two statements UNPROVED, see below). PROVED over all operation histories on a heap model with Python reference semantics (objects, shared "
        "children, per-object hash caches, from_* constructors as coded, RawSignatureHash executed on the heap): the "
        "invariant (filled caches equal the hash of the current serialisation; immutable roots reach only immutable "
        "objects; copies are fresh) holds initially and is preserved by every operation of the property's catalogue "
@@ -321,7 +321,7 @@ def main():
             "evidence_file": "evidence/%s.json" % pid, "replay_cmd_template": "./check %s --replay {path}" % pid,
             "engine": "lean4-proof+correspondence",
             "level_claimed": {"category": "proof", "text": d['text'],
-                              "design_ref": "DESIGN.md §6 %s, §11; docs/THEOREMS.md; docs/AUDIT-1.md, AUDIT-2.md" % pid},
+                              "design_ref": "DESIGN.md §6 %s, §11; docs/THEOREMS.md; docs/AUDIT-1.md … AUDIT-4.md" % pid},
             "level_note": d['note'], "technique": d['tech']})
     claimed = [c['property_id'] for c in checks]
     m = {"version": 1,
